@@ -23,6 +23,10 @@ type CLI struct {
 	Argv []string `json:"argv"`
 	// TZ, if set, is the process's local time zone for this run (time.Local).
 	TZ string `json:"tz,omitempty"`
+	// ClientDelayMs is the simulated time that obtaining the API client takes (a
+	// connection helper starting up): time passes between the command's first look at
+	// the clock and its first request.
+	ClientDelayMs int `json:"client_delay_ms,omitempty"`
 }
 
 // Fault kinds.
